@@ -252,7 +252,7 @@ class ConnRun:
             elif res == "BadNameAPIError":
                 if w.params.expected_name is None:
                     return False
-                data = c.noise_hello(name_override="oth")
+                data = c.noise_hello(name_override=getattr(self, "noise_badname", "oth"))
             elif res == "InvalidEncryptionKeyAPIError":
                 data = c.noise_hello() + c.nd.handshake_error_frame("Handshake MAC failure")
             else:
@@ -536,6 +536,8 @@ def run_schedule(cfg: dict, schedule: list, seed: int = 0) -> dict:
                 r.stall(it[1])
             elif kind == "noname":
                 r.noise_noname = bool(it[1])
+            elif kind == "badname_as":
+                r.noise_badname = it[1]
         return r.finish()
     except BaseException:
         r.loop.after_callback = None
@@ -734,6 +736,19 @@ def c06_family(quick: bool, rng: random.Random) -> list:
                                                     st += [("ev", "chunk", order + trail)]
                                                 st += [("idle",), ("ev", "chunk", [{"k": "A", "key": 2}]), ("idle",), ("tick",), ("tick",), ("tick",)]
                                                 out.append((cfg, st))
+    # names that ALMOST match the expected one (other case, "_" for "-", trailing blank, a prefix) are other names
+    for noise in (False, True):
+        cfg = dict(noise=noise, exp="d-v", login=False, K=20000)
+        for name in ("d-v", "d_v", "D-V", "d-v ", "d-", "d-vv", "dev"):
+            st = [("ev", "start"), ("idle",), ("ev", "resolve", "ok"), ("idle",), ("ev", "tcp", "ok"), ("idle",), ("ev", "finish", False), ("idle",)]
+            if noise:
+                st += [("noname", True), ("ev", "handshake", "ok"), ("idle",)]
+            st += [("ev", "chunk", [{"k": "hello", "major": 1, "name": name}]), ("idle",), ("ev", "chunk", [{"k": "A", "key": 2}]), ("idle",), ("tick",), ("tick",)]
+            out.append((cfg, st))
+            if noise and name != "d-v":
+                # the same near-miss announced in the Noise server hello
+                out.append((cfg, [("ev", "start"), ("idle",), ("ev", "resolve", "ok"), ("idle",), ("ev", "tcp", "ok"), ("idle",), ("ev", "finish", False), ("idle",),
+                                  ("badname_as", name), ("ev", "handshake", "BadNameAPIError"), ("idle",), ("tick",), ("tick",)]))
     # Noise: the name announced in the server hello is checked as well
     for login in (False, True):
         cfg = dict(noise=True, exp="dev", login=login, K=20000)
